@@ -148,6 +148,18 @@ def pcr_cases(thorough, seed):
             lines = [" ORG $2000\n", "T NOP\n", " NOP\n", "S %s %s\n" % (mn, op), " ORG $%X\n" % org2, "U NOP\n"]
             yield {"id": "beforeorg/%s/%X" % (mn, org2), "lines": lines, "form": "rel.before-later-org", "traits": {"ind": "[" in op, "zone": "n/a"},
                    "src": [("S", "T", 0)], "valid": None, "mn": mn}
+    # a label in front of a LEADING ORG (on an ORG, SETDP, NAM or RMB 0 line): the target is not "the bytes in between" away
+    for carrier in ("ORG $%X", "SETDP 0", "RMB 0", "NAM X"):
+        for first, second in ((0x0100, 0x1000), (0x0FF0, 0x1000), (0x1000, 0x0F90), (0x3000, 0x1000), (0x1000, 0x1000)):
+            head = "T %s\n" % (carrier % first if "%" in carrier else carrier)
+            taddr = first if "%" in carrier else 0
+            for mn in ("BRA", "BSR", "BNE", "LBRA", "LBSR", "LBEQ"):
+                lines = [head, " ORG $%X\n" % second, " NOP\n", "S %s T\n" % mn, " NOP\n"]
+                size = 2 if not mn.startswith("L") else (3 if mn in ("LBRA", "LBSR") else 4)
+                dist = taddr - (second + 1 + size)
+                valid = True if mn.startswith("L") else (-128 <= dist <= 127)
+                yield {"id": "leadorg/%s/%s/%X/%X" % (mn, carrier.split()[0], first, second), "lines": lines, "form": "rel.label-before-leading-org",
+                       "traits": {"zone": "n/a", "short": not mn.startswith("L")}, "src": [("S", "T", 0)], "valid": valid if mn.startswith("L") or valid else False, "mn": mn}
     # branches whose span contains 8-bit and 16-bit label,PCR statements
     for bm in ("BRA", "BNE", "LBRA", "BSR"):
         for npcr in (1, 2, 3):
